@@ -279,4 +279,25 @@ func ScenarioPartnerRewards() Script {
 	)
 }
 
+// ScenarioBasicInvalidAfterRestart: block 3 carries a transaction whose message fails ValidateBasic (a cdp
+// deposit of 0). baseapp rejects it before the ante handler and reports, as its gas used, the gas accumulated on
+// the block context — which differs on a node re-opened from its database after block 2 (the capability
+// module re-initialises its memory store in that block). See findings/C01-restart-gas-invalid-tx.md.
+func ScenarioBasicInvalidAfterRestart() Script {
+	return script(
+		blk(sixS, func(g *Gen) []genFn {
+			u := g.P.Users[0]
+			m := cdptypes.NewMsgCreateCDP(u.Addr, c("bnb", 10_00000000), c("usdx", 100_000000), "bnb-a")
+			return []genFn{fixed(one("cdp.create", u, &m, "")), g.bankSend}
+		}),
+		blk(sixS, func(g *Gen) []genFn { return []genFn{g.bankSend} }),
+		blk(sixS, func(g *Gen) []genFn {
+			u := g.P.Users[0]
+			m := cdptypes.NewMsgDeposit(u.Addr, u.Addr, c("bnb", 0), "bnb-a")
+			return []genFn{g.bankSend, fixed(one("cdp.deposit", u, &m, "0bnb (fails ValidateBasic)")), g.bankSend}
+		}),
+		blk(sixS, func(g *Gen) []genFn { return []genFn{g.bankSend} }),
+	)
+}
+
 var _ = sdkmath.NewInt
